@@ -1,5 +1,9 @@
 """C27 coverage aggregation (Coverage.tla) and C26 test outcomes (TestResults.tla): G->I in-process."""
 import json
+import os
+import random
+import re
+import xml.etree.ElementTree as ET
 
 import vlib
 from engines import register
@@ -160,7 +164,7 @@ def _c26_check(exp, o, n_runs):
         gs, ws = set(got_ids), set(want_ids)
         if any(n == "?the_test" for c, n in gs):
             # parseTestOutput added a case of its own, named after the target: everything else follows from it
-            return ["synthetic-case-added"]
+            return ["synthetic-case-added"] + (["retry-loop-attempts"] if o.get("attempts_used", n_runs) != n_runs else [])
         elif any(c.startswith("?") or n.startswith("?") for c, n in gs):
             out.append("case-names-changed")
         elif gs < ws:
@@ -188,6 +192,103 @@ def _errors_but_no_failures(case):
     return any(any(e["out"] == "error" for e in r) and not any(e["out"] == "fail" for e in r) for r in case["runs"])
 
 
+def _c26_e2e(ctx, cases, n):
+    """A sample of behaviours through the real `plz test`: one gentest per (behaviour, format) whose command copies the
+    file of its k-th attempt to $RESULTS_FILE and exits with that attempt's status; the real doFlakeRun drives the retries.
+    Observed: number of attempts actually made, what plz writes to plz-out/log/test_results.xml, which targets it
+    prints as failed, and its exit status."""
+    if not cases or n <= 0:
+        return 0
+    rnd = random.Random(ctx.seed)
+    # strata: the break out of the loop matters / retries happen / the rest
+    early = [c for c in cases if c["stopped"] and c["allow"] > len(c["runs"])]
+    retry = [c for c in cases if len(c["runs"]) >= 2 and c not in early]
+    rest = [c for c in cases if len(c["runs"]) < 2 and c not in early]
+    for l in (early, retry, rest):
+        rnd.shuffle(l)
+    sample = early[:n // 4]
+    sample += retry[:n // 2]
+    sample += rest[:n - len(sample)]
+    plz = vlib.build_plz()
+    root = os.path.join(ctx.scratch, "e2e-c26")
+    repo, cnt, home = os.path.join(root, "repo"), os.path.join(root, "cnt"), os.path.join(root, "home")
+    for d in (os.path.join(repo, "t"), cnt, home):
+        os.makedirs(d, exist_ok=True)
+    with open(os.path.join(repo, ".plzconfig"), "w") as f:
+        f.write("[cache]\ndir = %s\n[please]\nselfupdate = false\n" % os.path.join(root, "cache"))
+    info = vlib.run_vh(ctx, "testresults-render", [dict(id=c["id"], allow=c["allow"], runs=c["runs"]) for c in sample],
+                       args=[os.path.join(repo, "t")])
+    build = []
+    for c in sample:
+        for fmt in ("xml", "go"):
+            name = "c%d_%s" % (c["id"], fmt)
+            data = ["c%d.%s.%d" % (c["id"], fmt, k + 1) for k in range(len(c["runs"]))]
+            data += ["c%d.exit.%d" % (c["id"], k + 1) for k in range(len(c["runs"]))]
+            cmd = ("n=$(cat {cnt}/{name} 2>/dev/null || echo 0); n=$((n+1)); echo $n > {cnt}/{name}; "
+                   "cp t/c{id}.{fmt}.$n $RESULTS_FILE || exit 9; exit $(cat t/c{id}.exit.$n)"
+                   ).format(cnt=cnt, name=name, id=c["id"], fmt=fmt)
+            build.append("gentest(name = %r, data = %r, flaky = %d, test_cmd = %r, no_test_output = False)"
+                         % (name, data, c["allow"] if c["allow"] > 1 else 0, cmd))
+    with open(os.path.join(repo, "t", "BUILD"), "w") as f:
+        f.write("\n".join(build) + "\n")
+    env = dict(HOME=home, XDG_CONFIG_HOME="", XDG_CONFIG_DIRS="", XDG_CACHE_HOME=os.path.join(root, "xdgcache"))
+    p = vlib.sh([plz, "test", "-p", "-v", "1", "//t:all"], cwd=repo, env=env, check=False, timeout=900)
+    text = re.sub(r"\x1b\[[0-9;]*m", "", p.stdout or "")
+    xml_path = os.path.join(repo, "plz-out", "log", "test_results.xml")
+    if not os.path.exists(xml_path):
+        raise vlib.Infra("plz test wrote no test_results.xml (rc=%d):\n%s" % (p.returncode, text[-3000:]))
+    failed = set(re.findall(r"^Fail: //t:(\S+)", text, re.M))
+    suites = {ts.get("name"): ts for ts in ET.parse(xml_path).getroot().iter("testsuite")}
+    rev = {}
+    any_info = next(iter(info.values()))
+    for c_, cv in any_info["classes"].items():
+        for n_, nv in any_info["names"].items():
+            rev[(cv, nv)] = (c_, n_)
+            rev[(None, any_info["gonames"][c_ + "/" + n_])] = (c_, n_)
+    expected_fail = False
+    compared = 0
+    for c in sample:
+        for fmt in ("xml", "go"):
+            name = "c%d_%s" % (c["id"], fmt)
+            ts = suites.get(name)
+            if ts is None:
+                raise vlib.Infra("target %s missing from test_results.xml:\n%s" % (name, text[-2000:]))
+            ids = []
+            for tc in ts.iter("testcase"):
+                cls, nm = tc.get("classname"), tc.get("name")
+                if cls == "t." + name:          # the serialiser's filler for an empty classname
+                    cls = None
+                if nm == name and cls is None:
+                    ids.append(("?", "?the_test"))
+                else:
+                    ids.append(rev.get((cls, nm), ("?" + str(cls), "?" + str(nm))))
+            try:
+                attempts = int(open(os.path.join(cnt, name)).read())
+            except Exception:
+                attempts = 0
+            o = dict(tests=int(ts.get("tests", "0")), failures=int(ts.get("failures", "0")),
+                     errors=int(ts.get("errors", "0")), skips=int(ts.get("skipped", "0")),
+                     ids=[list(i) for i in ids], target_passes=name not in failed, attempts_used=attempts)
+            exp = dict(c["expect"][fmt], _ids=c["ids"])
+            # passes / flaky are not attributes of the written XML: not compared end to end
+            o["passes"], o["flaky"] = exp["passes"][0], exp["flaky"][0]
+            compared += 1
+            expected_fail = expected_fail or not exp["target_passes"]
+            for b in _c26_check(exp, o, len(c["runs"])):
+                if b == "synthetic-case-added":
+                    sig = "C26 run/%s synthetic-case-added %s" % (
+                        fmt, "when-errors-but-no-failures-reported" if fmt == "xml" and _errors_but_no_failures(c)
+                        else "unexpected")
+                else:
+                    sig = "C26 e2e/%s %s" % (fmt, b)
+                ctx.violation(sig, dict(case=c, rendering="e2e/" + fmt, expected=c["expect"][fmt], observed=o, e2e=True))
+    if (p.returncode != 0) != bool(failed):
+        raise vlib.Infra("plz test exit status %d does not match its own list of failed targets %s:\n%s"
+                         % (p.returncode, sorted(failed)[:5], text[-2000:]))
+    ctx.extra["e2e_plz_test_targets"] = compared
+    return compared
+
+
 @register("C26", claim=CLAIM_C26)
 def run_c26(ctx):
     ctx.rule = ("every terminal behaviour of the retry loop of TestResults.tla (skeletons of <=3 entries over 2 classes x 2 names, "
@@ -202,7 +303,9 @@ def run_c26(ctx):
                        "the retry loop is mirrored by the harness (real Add / AllSucceeded); not driven through plz test"]
     if ctx.replay_only is not None:
         cases = [d["case"] for d in ctx.replay_only]
+        e2e_n = len([d for d in ctx.replay_only if d.get("e2e")])
     else:
+        e2e_n = 24 if ctx.quick else 150
         r = vlib.tlc(ctx, "TestResults", "GEN_TestResults_quick.cfg" if ctx.quick else "GEN_TestResults_thorough.cfg",
                      workers=8, timeout=2400, java_opts=None if ctx.quick else ["-Xmx8g"])
         cases = r.cases
@@ -281,4 +384,4 @@ def run_c26(ctx):
     if drift:
         ctx.drift("%d observations within the allowed ranges but different from the algorithm model's exact counters" % drift)
     ctx.extra["observations_compared"] = n_obs
-    ctx.traces_validated = len(cases)
+    ctx.traces_validated = len(cases) + _c26_e2e(ctx, cases, e2e_n)
